@@ -20,6 +20,28 @@ type alPayload interface {
 	Size() int
 }
 
+// one Command VALUE of each package (decoded into repeatedly by the reuse events)
+var alCommandMakers = map[string]func() interface{}{
+	"clocksync":          func() interface{} { return &clocksync.Command{} },
+	"multicastsetup":     func() interface{} { return &multicastsetup.Command{} },
+	"fragmentation":      func() interface{} { return &fragmentation.Command{} },
+	"firmwaremanagement": func() interface{} { return &firmwaremanagement.Command{} },
+}
+
+// marOf: what the value marshals to right now ("error" / "panic" instead of bytes when it cannot be marshalled)
+func marOf(p interface{ MarshalBinary() ([]byte, error) }) interface{} {
+	var b []byte
+	res, _ := observeFast(func() error {
+		var err error
+		b, err = p.MarshalBinary()
+		return err
+	})
+	if res != "" {
+		return M{"err": res, "b": []int{}}
+	}
+	return M{"err": "", "b": bs(b)}
+}
+
 type alCmd struct {
 	cid int
 	p   alPayload // nil = no payload
